@@ -135,19 +135,19 @@ func TestVerif_C41_agreement(t *testing.T) {
 		// agreement wire types
 		{proto: new(unauthenticatedVote), pairs: true},
 		{proto: new(unauthenticatedBundle)},
-		{proto: new(unauthenticatedProposal), hostile: blockNests},
+		{proto: new(unauthenticatedProposal), hostile: blockNests, thoroughOnly: true},
 		{proto: new(transmittedPayload), hostile: blockNests},
 		{proto: new(Certificate)},
 		{proto: new(unauthenticatedEquivocationVote)},
 		// transactions and blocks
 		{proto: new(transactions.SignedTxn)},
-		{proto: new(transactions.SignedTxnInBlock), hostile: nests},
-		{proto: new(transactions.SignedTxnWithAD), hostile: nests},
-		{proto: new(transactions.ApplyData), hostile: nests},
-		{proto: new(transactions.EvalDelta)},
+		{proto: new(transactions.SignedTxnInBlock), hostile: nests, thoroughOnly: true},
+		{proto: new(transactions.SignedTxnWithAD), hostile: nests, thoroughOnly: true},
+		{proto: new(transactions.ApplyData), hostile: nests, thoroughOnly: true},
+		{proto: new(transactions.EvalDelta), thoroughOnly: true},
 		{proto: new(transactions.LogicSig)},
-		{proto: new(transactions.Payset)},
-		{proto: new(bookkeeping.Block), hostile: blockNests},
+		{proto: new(transactions.Payset), thoroughOnly: true},
+		{proto: new(bookkeeping.Block), hostile: blockNests, thoroughOnly: true},
 		{proto: new(bookkeeping.BlockHeader)},
 		{proto: new(bookkeeping.LightBlockHeader)},
 		// account / tracker records as stored on disk and in catchpoints
